@@ -70,25 +70,34 @@ impl RatesCache for SharedMem {
     fn get_usd_cad_rates(&mut self, year: u32) -> Result<Option<Vec<DailyRate>>, String> { self.0.get_usd_cad_rates(year) }
 }
 
-fn run_history(c: &CacheCase, csv_dir: Option<&std::path::Path>, obs: &mut O) -> Verdict {
+/// A cache whose writes fail (read-only or full cache directory): nothing is ever persisted.
+struct FailingWrites;
+impl RatesCache for FailingWrites {
+    fn write_rates(&mut self, _year: u32, _rates: &Vec<DailyRate>) -> Result<(), String> { Err("cache directory is not writable".into()) }
+    fn get_usd_cad_rates(&mut self, _year: u32) -> Result<Option<Vec<DailyRate>>, String> { Ok(None) }
+}
+
+fn run_history(c: &CacheCase, csv_dir: Option<&std::path::Path>, obs: &mut O) -> Verdict { run_history_with(c, csv_dir, false, obs) }
+
+fn run_history_with(c: &CacheCase, csv_dir: Option<&std::path::Path>, failing_writes: bool, obs: &mut O) -> Verdict {
     let cal = Rc::new(c.cal.clone());
     let shared: acb::util::rc::RcRefCell<HashMap<u32, Vec<DailyRate>>> = RcRefCellT::new(HashMap::new());
-    let kind = if csv_dir.is_some() { "csv-file cache" } else { "in-memory cache" };
+    let kind = if failing_writes { "cache whose writes fail" } else if csv_dir.is_some() { "csv-file cache" } else { "in-memory cache" };
     let mut prev_unforced = false;
     for (ri, run) in c.runs.iter().enumerate() {
         crate::observe::reset_globals(run.today);
         let cutoff = if run.incl_today { run.today + Duration::days(1) } else { run.today };
         let calls: Rc<RefCell<BTreeMap<u32, u32>>> = Rc::new(RefCell::new(BTreeMap::new()));
-        let cache: Box<dyn RatesCache> = match csv_dir { Some(d) => Box::new(CsvRatesCache::new(d.to_path_buf(), WriteHandle::empty_write_handle())), None => Box::new(SharedMem(InMemoryRatesCache { rates_by_year: shared.clone() })) };
+        let cache: Box<dyn RatesCache> = if failing_writes { Box::new(FailingWrites) } else { match csv_dir { Some(d) => Box::new(CsvRatesCache::new(d.to_path_buf(), WriteHandle::empty_write_handle())), None => Box::new(SharedMem(InMemoryRatesCache { rates_by_year: shared.clone() })) } };
         let mut loader = RateLoader::new(run.force, cache, Box::new(CountingRemote { cal: cal.clone(), cutoff, calls: calls.clone() }), WriteHandle::empty_write_handle());
         if run.force && prev_unforced { obs.nt("forced-run-after-unforced"); }
         prev_unforced = !run.force;
         let mut served_from_cache_first: BTreeMap<i32, bool> = BTreeMap::new();
         for (li, d) in run.lookups.iter().enumerate() {
             // what does the persisted cache hold for that year right now?
-            let persisted: Option<Vec<DailyRate>> = match csv_dir { Some(dir) => CsvRatesCache::new(dir.to_path_buf(), WriteHandle::empty_write_handle()).get_usd_cad_rates(d.year() as u32).ok().flatten(), None => shared.borrow().get(&(d.year() as u32)).cloned() };
+            let persisted: Option<Vec<DailyRate>> = if failing_writes { None } else { match csv_dir { Some(dir) => CsvRatesCache::new(dir.to_path_buf(), WriteHandle::empty_write_handle()).get_usd_cad_rates(d.year() as u32).ok().flatten(), None => shared.borrow().get(&(d.year() as u32)).cloned() } };
             // which dates the persisted year covers is read off the file itself (date,rate lines), not through the reader under test
-            let cache_has_date = match csv_dir {
+            let cache_has_date = !failing_writes && match csv_dir {
                 Some(dir) => std::fs::read_to_string(dir.join(format!("rates-{}.csv", d.year()))).map(|t| t.lines().any(|l| l.split(',').next().map(|x| x.trim() == d.to_string()).unwrap_or(false))).unwrap_or(false),
                 None => persisted.as_ref().map(|v| v.iter().any(|r| r.date == *d)).unwrap_or(false),
             };
@@ -129,12 +138,16 @@ fn check(c: &CacheCase, obs: &mut O) -> Verdict {
     let mut o2 = O::default();
     let v = run_history(c, Some(&dir), &mut o2);
     let _ = std::fs::remove_dir_all(&dir);
+    if !matches!(v, Verdict::Pass) { return v; }
+    // a cache that cannot be written: answers still equal the no-cache answers, and a year is still downloaded at most once per run
+    let mut o3 = O::default();
+    let v = run_history_with(c, None, true, &mut o3);
     if c.runs.len() >= 2 { obs.class(">=2-runs"); }
     v
 }
 
 pub fn def() -> PropDef {
-    let mut d = PropDef::new("C13", "model-based histories: one generated publication calendar; 1-5 runs with non-decreasing 'today' (steps 0 days ... 14 months), force flag, remote data = everything published before that run's today (sometimes including today), and 1-8 look-ups per run in any order (just before today, older, today/future, gap edges, start of this/previous year, random); the cache object (in-memory, then a real CSV cache directory) is carried from run to run. After every look-up the answer must equal that of a fresh loader with an empty cache over the same remote data and 'today' (same date and rate, or both errors); a year is downloaded at most once per run, and not at all for a date the persisted cache already covers (unless forced). Non-trivial = a run that first looks up a date served from the cache and later a past date of the same year that the cache does not cover, or a forced run after an unforced one. Distinct = distinct case content.");
+    let mut d = PropDef::new("C13", "model-based histories: one generated publication calendar; 1-5 runs with non-decreasing 'today' (steps 0 days ... 14 months), force flag, remote data = everything published before that run's today (sometimes including today), and 1-8 look-ups per run in any order (just before today, older, today/future, gap edges, start of this/previous year, random); the cache object (in-memory, then a real CSV cache directory, then a cache whose writes fail) is carried from run to run. After every look-up the answer must equal that of a fresh loader with an empty cache over the same remote data and 'today' (same date and rate, or both errors); a year is downloaded at most once per run, and not at all for a date the persisted cache already covers (unless forced). Non-trivial = a run that first looks up a date served from the cache and later a past date of the same year that the cache does not cover, or a forced run after an unforced one. Distinct = distinct case content.");
     d.assumptions = vec!["the remote always contains every rate published before the run's today (the property's premise)", "no remote errors are injected"];
     d.subs.push(Box::new(Sub::<CacheCase> { name: "history", cases_quick: 12_000, cases_thorough: 200_000, strategy: Box::new(strategy), to_json: CacheCase::to_json, from_json: CacheCase::from_json, check }));
     d
